@@ -11,7 +11,11 @@ Definition op_wf (op : wop) : Prop :=
 Definition wf_label (l : label) : Prop :=
   match l with
   | LInvoke _ op => op_wf op
-  | LThread _ e | LRetry e => env_ocas e = false
+  | LThread _ e => env_ocas e = false
+  | LRetry e => env_ocas e = false /\ e <> EnvAbort
+      (* engine contract (DESIGN §5): a reported write conflict implies a conflicting commit since the batch began; for
+         the repair write, whose only compare is the key's index record, that is the EnvOk outcome with a failed compare.
+         An abort with the compare still true is not an outcome of the repair commit. *)
   | _ => True
   end.
 
@@ -317,12 +321,12 @@ Proof.
   - destruct e; try (constructor; unfold vers in *; cbn [s_store s_dealt s_threads s_retry set_retry set_rlast]; try assumption;
                      [intros ? ? [H|[? H]]; discriminate|discriminate]).
     destruct (latest (k_vers (s_store s (e_key node)))) as [[modrev val]|] eqn:L.
-    + destruct (is_empty val || negb (modrev =? e_rev node)) eqn:C.
+    + destruct (negb (modrev =? e_rev node)) eqn:C.
       * constructor; unfold vers in *; cbn [s_store s_dealt s_threads s_retry set_retry]; try assumption;
           [intros ? ? [H|[? H]]; discriminate|discriminate].
       * constructor; unfold vers in *; cbn [s_store s_dealt s_threads s_retry set_retry]; try assumption; [|discriminate].
         intros n v [H|[? H]]; [|discriminate]. injection H as <- <-.
-        apply orb_false_iff in C as [_ C]. apply negb_false_iff in C. apply N.eqb_eq in C. subst modrev.
+        apply negb_false_iff in C. apply N.eqb_eq in C. subst modrev.
         apply latest_in. exact L.
     + constructor; unfold vers in *; cbn [s_store s_dealt s_threads s_retry set_retry]; try assumption;
         [intros ? ? [H|[? H]]; discriminate|discriminate].
@@ -347,8 +351,9 @@ Proof.
         destruct (i_thr _ I1 t0 th0 rev G0 P0) as [_ [_ [Hn _]]]. apply Hn. rewrite R. reflexivity.
       * intros ? ? [H|[? H]]; discriminate.
       * discriminate.
-  - constructor; unfold vers in *; cbn [s_store s_dealt s_threads s_retry set_retry set_slots]; try assumption;
-      [intros ? ? [H|[? H]]; discriminate|discriminate].
+  - destruct eo as [er|]; [destruct (is_cas er)|];
+      (constructor; unfold vers in *; cbn [s_store s_dealt s_threads s_retry set_retry set_slots set_rlast]; try assumption;
+       [intros ? ? [H|[? H]]; discriminate|discriminate]).
   - constructor; unfold vers in *; cbn [s_store s_dealt s_threads s_retry set_retry set_queue set_rlast]; try assumption;
       [intros ? ? [H|[? H]]; discriminate|discriminate].
 Qed.
